@@ -48,7 +48,7 @@ func (p c13) per(c *run.Ctx) (int, int) {
 	if c.Tier == "thorough" {
 		return 100, 150
 	}
-	return 8, 40
+	return 16, 48
 }
 func (p c13) NumCases(c *run.Ctx) int  { u, o := p.per(c); return u * o }
 func (p c13) BatchSize(c *run.Ctx) int { return 10 }
